@@ -178,8 +178,8 @@ func (b *Buffer) checkCommit(dig ociregistry.Digest) (err error) {
 			b.commitErr = err
 		}
 	}()
-	if digest.FromBytes(b.buf) != dig {
-		return fmt.Errorf("digest mismatch (sha256(%q) != %s): %w", b.buf, dig, ociregistry.ErrDigestInvalid)
+	if actual := digest.FromBytes(b.buf); actual != dig {
+		return fmt.Errorf("digest mismatch (%s != %s): %w", actual, dig, ociregistry.ErrDigestInvalid)
 	}
 	b.desc = ociregistry.Descriptor{
 		MediaType: "application/octet-stream",
